@@ -31,6 +31,7 @@ def replay(path):
     with open(path) as f:
         rec = json.load(f)
     h = load(rec["property"])
+    h.tier = "thorough"  # a replay runs the complete case, whatever the tier that found it thinned out
     got = h.replay(rec["case"])
     print(f"replay of {path}\n  property={rec['property']} clause={rec['clause']}")
     print(f"  case={json.dumps(rec['case'])[:2000]}")
